@@ -578,6 +578,7 @@ class Factory:
 
         # Validate against schemas
         project = toml_data.get("project")
+        project_validation_errors: list[str] = []
         if project is not None:
             project_validation_errors = [
                 e.replace("data", "project")
@@ -586,12 +587,19 @@ class Factory:
             result["errors"] += project_validation_errors
         # With PEP 621 [tool.poetry] is not mandatory anymore. We still create and
         # validate it so that default values (e.g. for package-mode) are set.
-        tool_poetry = toml_data.setdefault("tool", {}).setdefault("poetry", {})
+        tool = toml_data.setdefault("tool", {})
+        if not isinstance(tool, dict):
+            result["errors"].append("tool must be object")
+            return result
+        tool_poetry = tool.setdefault("poetry", {})
         tool_poetry_validation_errors = [
             e.replace("data.", "tool.poetry.")
             for e in validate_object(tool_poetry, "poetry-schema")
         ]
         result["errors"] += tool_poetry_validation_errors
+        if not isinstance(tool_poetry, dict) or not isinstance(project or {}, dict):
+            # reported by the schemas above; the checks below need tables
+            return result
 
         # Fields that are written as a single header line of the core metadata
         # must not contain line breaks: the rest would be read as a new header.
@@ -620,10 +628,16 @@ class Factory:
             )
 
         if strict:
-            # Validate relation between [project] and [tool.poetry]
-            cls._validate_legacy_vs_project(toml_data, result)
+            try:
+                # Validate relation between [project] and [tool.poetry]
+                cls._validate_legacy_vs_project(toml_data, result)
 
-            cls._validate_strict(config, result)
+                cls._validate_strict(config, result)
+            except (AttributeError, TypeError):
+                # the strict checks read the sections as the schemas describe them;
+                # on data that violates a schema (reported above) they may not apply
+                if not (project_validation_errors or tool_poetry_validation_errors):
+                    raise
 
         return result
 
@@ -658,7 +672,7 @@ class Factory:
     def _validate_legacy_vs_project(
         cls, toml_data: dict[str, Any], result: dict[str, list[str]]
     ) -> None:
-        project = toml_data.get("project", {})
+        project = toml_data.get("project") or {}
         dynamic = project.get("dynamic", [])
         tool_poetry = toml_data["tool"]["poetry"]
 
